@@ -11,13 +11,36 @@ from .xlref.values import outcome_matches
 
 def judge_book(ctx, prop, spec, targets, valuations, *, exact=False, err_exact=False, classify=None, nontrivial=None,
                name='wb', monitor='reference-model', strict_text=False, runtime_monitor=True, now=None, per_cell=False,
-               case_extra=None, on_result=None, empty_text_is_blank=False, same_executor=True, flag_consistency=True, unjudged=None):
+               case_extra=None, on_result=None, empty_text_is_blank=False, same_executor=True, flag_consistency=True, unjudged=None, pairs=True):
     """targets: [(sheet_idx, addr)] formula cells to judge; valuations: list of [(sheet_idx, addr, value)] override lists.
     classify(case, out, outs) -> known-finding tag | None ; nontrivial(case, outs) -> bool"""
     r = ctx.r
     tmon = TranslateMonitor.install(r)
     tmon.drain()
+    # PAIR SUMS (a law, no model): on an extra last worksheet, cells `=<target a>+<target b>` for pairs of judged cells. One query of such a
+    # cell evaluates both targets (and whatever areas they share) in ONE evaluation: its value has to be the sum of the two values obtained
+    # in queries of their own - whatever one formula did to a value both of them read (an area reversed, pruned or marked in place, a
+    # remembered value of the wrong kind) shows as a difference.
+    pair_cells = {}
+    if pairs and not per_cell and len(targets) >= 2:
+        import copy as _copy
+        import random as _random0
+        prng = _random0.Random(len(targets) * 104729 + len(valuations))
+        all_titles = [sh_['title'] for sh_ in spec['sheets']]
+        usable = [(si, a) for (si, a) in targets if "'" not in [s_ for s_ in spec['sheets'] if not s_.get('chart')][si]['title']]
+        if len(usable) >= 2 and 'Pair sums' not in all_titles:
+            spec = _copy.deepcopy(spec)
+            wsheets = [s_ for s_ in spec['sheets'] if not s_.get('chart')]
+            cells_ = {}
+            for k_ in range(min(24, len(usable))):
+                (s1, a1_), (s2, a2_) = prng.sample(usable, 2)
+                t1, t2 = wsheets[s1]['title'], wsheets[s2]['title']
+                addr_ = f'A{k_ + 1}'
+                cells_[addr_] = f"='{t1}'!{a1_}+'{t2}'!{a2_}"
+                pair_cells[addr_] = ((s1, a1_), (s2, a2_))
+            spec['sheets'].append({'title': 'Pair sums', 'cells': cells_})
     book = pipeline.Book(spec, ctx.workdir, name=name, per_cell=per_cell, cells_of_interest=targets if per_cell else None)
+    pair_si = len([s_ for s_ in spec['sheets'] if not s_.get('chart')]) - 1 if pair_cells else None
     r.count('books:' + book.mode)
     cons = {e.get('text'): e for e in tmon.drain() if e['type'] == 'parser'}
     if runtime_monitor and book.cls is not None:
@@ -46,6 +69,14 @@ def judge_book(ctx, prop, spec, targets, valuations, *, exact=False, err_exact=F
             shared = {}
             try:
                 ex = pipeline.Executor().set_executed_class(class_object=book.cls)
+                if vi % 4 == 1:
+                    # history: before the overrides of this valuation arrive, a LIST query that fails half way - two of the targets are
+                    # evaluated (under the workbook's own values), then an address that names no sheet stops the call. Whatever that
+                    # call left behind must not outlive it.
+                    from excel2pycl import Cell as _Cell
+                    first = [pipeline.ncell(si_, *rc(a_)) for (si_, a_) in order[:2]]
+                    o_fail = pipeline.guarded(lambda: ex.get_cells(first + [_Cell('no such sheet in this workbook', 'A', '1')]), 'evaluate')
+                    r.count('failed_list_queries_before_overrides' if not o_fail.ok else 'list_query_with_unknown_sheet_accepted')
                 if val:
                     ex.set_cells([pipeline.ncell(s, *rc(a), v) for (s, a, v) in val])
                 # a SECOND Executor alive on the same class object, holding the previous valuation, is asked in between: each of the two
@@ -69,6 +100,7 @@ def judge_book(ctx, prop, spec, targets, valuations, *, exact=False, err_exact=F
                 raise
             except BaseException:  # noqa: B902 - set_cells itself failed: fall back to the per-target path
                 shared = None
+        observed_now = {}
         for (si, addr) in targets:
             formula = sheets[si]['cells'].get(addr)
             try:
@@ -85,6 +117,7 @@ def judge_book(ctx, prop, spec, targets, valuations, *, exact=False, err_exact=F
             scale = evalr.LAST['scale']      # numbers read by the reference: round-off of a differently ordered sum is of that scale
             pending_flags = flags
             out = shared[(si, addr)] if shared is not None else book.value(si, addr, val)
+            observed_now[(si, addr)] = out
             if shared is None:
                 this_fresh[(si, addr)] = out
             r.ev()
@@ -108,6 +141,25 @@ def judge_book(ctx, prop, spec, targets, valuations, *, exact=False, err_exact=F
                 report(r, prop, None, case, cons[formula], 'whole formula consumed', monitor='parser-conservation')
             if nontrivial is None or nontrivial(case, outs):
                 r.nt((formula, addr, repr(val), name if nontrivial is None else ''))
+        if pair_cells and book.cls is not None:
+            for addr_, (ta, tb) in pair_cells.items():
+                oa = observed_now.get(ta) or book.value(ta[0], ta[1], val)
+                ob_ = observed_now.get(tb) or book.value(tb[0], tb[1], val)
+                if not (oa.ok and ob_.ok):
+                    continue
+                va, vb = oa.value, ob_.value
+                plain = lambda v: isinstance(v, (int, float)) and not isinstance(v, bool) and v == v and abs(v) != float('inf')   # noqa: E731
+                if not (plain(va) and plain(vb)):
+                    continue
+                op_ = book.value(pair_si, addr_, val)
+                r.ev()
+                r.count('pair_sum_checks')
+                want = va + vb
+                tol = 1e-9 * max(1.0, abs(va), abs(vb))
+                if not (op_.ok and plain(op_.value) and abs(op_.value - want) <= tol):
+                    report(r, prop, None, {'formula': sheets[pair_si]['cells'][addr_], 'cell': addr_, 'sheet': pair_si, 'overrides': val, 'spec': spec,
+                                           'first': [ta[0], ta[1], sheets[ta[0]]['cells'].get(ta[1])], 'second': [tb[0], tb[1], sheets[tb[0]]['cells'].get(tb[1])]},
+                           op_.brief(), {'first_alone': va, 'second_alone': vb, 'sum': want}, monitor='pair-sum-in-one-query')
         last_fresh = this_fresh
     return book
 
